@@ -1,6 +1,6 @@
 /-
 C01 `entry_eq_full_sum`: the box sum of the generated `entry_impl` equals the sum over all
-quadrature nodes; C08 `subset` (bbox): the on-demand shift does not change the value.
+quadrature nodes (arity 2 and 1); statement of the bbox shift used by C08 `subset`.
 -/
 import Pyiga.Model.Assembler
 import Pyiga.Proofs.Index
@@ -12,45 +12,204 @@ open Pyiga.Index
 
 variable {α : Type} [AddCommMonoid α]
 
-/-- `combine` is the sum of the kernel over the loop nest -/
-theorem combine_eq_sum (n : List Nat) (kernel : List Nat → α) :
-    combine n kernel = ((loopNest n).map kernel).sum := sorry
+theorem foldl_add_kernel (l : List (List Nat)) (k : List Nat → α) (a : α) :
+    l.foldl (fun r q => r + k q) a = a + (l.map k).sum := by
+  induction l generalizing a with
+  | nil => simp
+  | cons x xs ih => simp [List.foldl_cons, ih, add_assoc]
 
-/-- node `q` lies in the half-open box `∏ [g_k.1, g_k.2)` -/
+theorem combine_eq_sum (n : List Nat) (kernel : List Nat → α) :
+    combine n kernel = ((loopNest n).map kernel).sum := by
+  unfold combine
+  rw [foldl_add_kernel, zero_add]
+
+theorem sum_flatMap_map (L : List Nat) (inner : List (List Nat)) (F : List Nat → α) :
+    ((L.flatMap (fun i => inner.map (i :: ·))).map F).sum =
+      (L.map (fun i => (inner.map (fun q => F (i :: q))).sum)).sum := by
+  induction L with
+  | nil => simp
+  | cons i L ih =>
+    rw [List.flatMap_cons, List.map_append, List.sum_append, ih, List.map_cons, List.sum_cons, List.map_map]
+    rfl
+
+theorem nest_sum_cons (n : Nat) (ns : List Nat) (F : List Nat → α) :
+    ((loopNest (n :: ns)).map F).sum =
+      ((List.range n).map (fun i => ((loopNest ns).map (fun q => F (i :: q))).sum)).sum := by
+  show (((List.range n).flatMap (fun i => (loopNest ns).map (i :: ·))).map F).sum = _
+  exact sum_flatMap_map _ _ F
+
+theorem mem_loopNest_cons (i n : Nat) (q ns : List Nat) :
+    (i :: q) ∈ loopNest (n :: ns) ↔ i < n ∧ q ∈ loopNest ns := by
+  show (i :: q) ∈ (List.range n).flatMap (fun i => (loopNest ns).map (i :: ·)) ↔ _
+  simp only [List.mem_flatMap, List.mem_range, List.mem_map]
+  constructor
+  · rintro ⟨a, ha, b, hb, hab⟩
+    injection hab with h1 h2
+    subst h1; subst h2
+    exact ⟨ha, hb⟩
+  · rintro ⟨h1, h2⟩
+    exact ⟨i, h1, q, h2, rfl⟩
+
+theorem sum_map_zero' {β : Type} (l : List β) (f : β → α) (h : ∀ x ∈ l, f x = 0) : (l.map f).sum = 0 := by
+  induction l with
+  | nil => simp
+  | cons x xs ih =>
+    rw [List.map_cons, List.sum_cons, h x List.mem_cons_self, ih (fun y hy => h y (List.mem_cons_of_mem _ hy)), add_zero]
+
+/-- 1-D: a summand vanishing outside `[a,b)` -/
+theorem range_sum_restrict (n a b : Nat) (f : Nat → α) (hab : a ≤ b) (hbn : b ≤ n)
+    (hz : ∀ i, i < n → ¬ (a ≤ i ∧ i < b) → f i = 0) :
+    ((List.range n).map f).sum = ((List.range (b - a)).map (fun t => f (a + t))).sum := by
+  have hsplit : List.range n = List.range' 0 a ++ (List.range' a (b - a) ++ List.range' b (n - b)) := by
+    rw [List.range_eq_range']
+    have e1 : List.range' a (b - a) ++ List.range' b (n - b) = List.range' a (n - a) := by
+      have : b = a + (b - a) := by omega
+      conv => lhs; rw [show List.range' b (n - b) = List.range' (a + (b - a)) (n - b) by rw [← this]]
+      rw [List.range'_append_1]
+      congr 1; omega
+    rw [e1]
+    have e2 : List.range' 0 a ++ List.range' a (n - a) = List.range' 0 n := by
+      conv => lhs; rw [show List.range' a (n - a) = List.range' (0 + a) (n - a) by rw [Nat.zero_add]]
+      rw [List.range'_append_1]
+      congr 1; omega
+    rw [e2]
+  rw [hsplit, List.map_append, List.map_append, List.sum_append, List.sum_append]
+  rw [sum_map_zero' (List.range' 0 a) f, sum_map_zero' (List.range' b (n - b)) f, zero_add, add_zero]
+  · rw [List.range'_eq_map_range, List.map_map]; rfl
+  · intro x hx
+    rw [List.mem_range'_1] at hx
+    exact hz x (by omega) (by omega)
+  · intro x hx
+    rw [List.mem_range'_1] at hx
+    exact hz x (by omega) (by omega)
+
 def InBox : List (Nat × Nat) → List Nat → Prop
   | [], [] => True
   | g :: gs, q :: qs => g.1 ≤ q ∧ q < g.2 ∧ InBox gs qs
   | _, _ => False
 
-/-- the box lies inside the grid `∏ [0, N_k)` -/
 def Fits : List (Nat × Nat) → List Nat → Prop
   | [], [] => True
   | g :: gs, n :: ns => g.1 ≤ g.2 ∧ g.2 ≤ n ∧ Fits gs ns
   | _, _ => False
 
-/-- sum over a sub-box = sum over the whole grid, for a summand vanishing outside the sub-box -/
+theorem runCombine_cons (a b : Nat) (gs : List (Nat × Nat)) (F : List Nat → α) :
+    runCombine ((a, b) :: gs) F =
+      ((List.range (b - a)).map (fun t => runCombine gs (fun q => F ((a + t) :: q)))).sum := by
+  unfold runCombine
+  rw [combine_eq_sum]
+  simp only [List.map_cons]
+  rw [nest_sum_cons]
+  apply congrArg
+  apply List.map_congr_left
+  intro t _
+  rw [combine_eq_sum]
+  simp only [List.zipWith_cons_cons]
+
 theorem runCombine_eq_full (g : List (Nat × Nat)) (N : List Nat) (F : List Nat → α)
     (hfit : Fits g N) (hF : ∀ q ∈ loopNest N, ¬ InBox g q → F q = 0) :
-    runCombine g F = combine N F := sorry
+    runCombine g F = combine N F := by
+  induction g generalizing N F with
+  | nil =>
+    cases N with
+    | nil => simp [runCombine, combine, loopNest]
+    | cons _ _ => simp [Fits] at hfit
+  | cons ab gs ih =>
+    obtain ⟨a, b⟩ := ab
+    cases N with
+    | nil => simp [Fits] at hfit
+    | cons n ns =>
+      obtain ⟨hab, hbn, hfits⟩ := hfit
+      simp only at hab hbn
+      rw [runCombine_cons, combine_eq_sum, nest_sum_cons]
+      rw [range_sum_restrict n a b _ hab hbn]
+      · apply congrArg
+        apply List.map_congr_left
+        intro t ht
+        rw [List.mem_range] at ht
+        rw [ih ns (fun q => F ((a + t) :: q)) hfits, combine_eq_sum]
+        intro q hq hnb
+        apply hF ((a + t) :: q) ((mem_loopNest_cons _ _ _ _).2 ⟨by omega, hq⟩)
+        intro hb
+        exact hnb hb.2.2
+      · intro i hi hout
+        apply sum_map_zero'
+        intro q hq
+        apply hF (i :: q) ((mem_loopNest_cons _ _ _ _).2 ⟨hi, hq⟩)
+        intro hb
+        exact hout ⟨hb.1, hb.2.1⟩
 
-/-- node `q` lies in the support box of a function (per-axis intervals) -/
 def InSupp : List Intv → List Nat → Prop
   | [], [] => True
   | s :: ss, q :: qs => s.a ≤ q ∧ q < s.b ∧ InSupp ss qs
   | _, _ => False
 
-/-- supports lie inside the grid -/
 def SuppFits : List Intv → List Nat → Prop
   | [], [] => True
   | s :: ss, n :: ns => s.b ≤ n ∧ SuppFits ss ns
   | _, _ => False
 
-def zeros (l : List β) : List Nat := l.map (fun _ => 0)
+def zeros {β : Type} (l : List β) : List Nat := l.map (fun _ => 0)
 
-/-- **entry_eq_full_sum** (arity 2, no bbox).  `jetU q`, `jetV q` are the jets of the two basis
-functions at node `q`; they vanish outside `nqp·meshsupp`; the integrand vanishes when either jet
-is zero (it is linear in each).  Then the value computed by `entry_impl` — the sum over the
-intersection box, or `0` after the early return — is the sum over *all* quadrature nodes. -/
+/-- characterisation of the header of `entry_impl` without bbox offsets -/
+theorem gaussRange2_zeros : ∀ (su sv : List Intv) (N : List Nat), SuppFits su N → SuppFits sv N →
+    match gaussRange2 su sv (zeros N) with
+    | some g => Fits g N ∧ ∀ q, InBox g q ↔ (InSupp su q ∧ InSupp sv q)
+    | none => ∀ q, ¬ (InSupp su q ∧ InSupp sv q)
+  | [], [], [], _, _ => by
+    simp only [zeros, List.map_nil, gaussRange2]
+    refine ⟨trivial, ?_⟩
+    intro q
+    cases q <;> simp [InBox, InSupp]
+  | u :: su, v :: sv, n :: N, hu, hv => by
+    have ih := gaussRange2_zeros su sv N hu.2 hv.2
+    simp only [zeros, List.map_cons, gaussRange2, intersect]
+    by_cases hemp : min u.b v.b ≤ max u.a v.a
+    · simp only [ge_iff_le, hemp, ↓reduceIte]
+      intro q
+      cases q with
+      | nil => simp [InSupp]
+      | cons x xs =>
+        simp only [InSupp]
+        intro h
+        omega
+    · simp only [ge_iff_le, hemp, ↓reduceIte]
+      revert ih
+      cases hgr : gaussRange2 su sv (zeros N) with
+      | none =>
+        intro ih
+        simp only [zeros] at hgr
+        rw [hgr]
+        simp only [Option.map_none]
+        intro q
+        cases q with
+        | nil => simp [InSupp]
+        | cons x xs =>
+          simp only [InSupp]
+          intro h
+          exact ih xs ⟨h.1.2.2, h.2.2.2⟩
+      | some g =>
+        intro ih
+        simp only [zeros] at hgr
+        rw [hgr]
+        simp only [Option.map_some, Nat.sub_zero]
+        refine ⟨⟨by omega, by have := hu.1; have := hv.1; omega, ih.1⟩, ?_⟩
+        intro q
+        cases q with
+        | nil => simp [InBox, InSupp]
+        | cons x xs =>
+          simp only [InBox, InSupp]
+          rw [ih.2 xs]
+          constructor
+          · rintro ⟨h1, h2, h3, h4⟩
+            exact ⟨⟨by omega, by omega, h3⟩, ⟨by omega, by omega, h4⟩⟩
+          · rintro ⟨⟨h1, h2, h3⟩, ⟨h4, h5, h6⟩⟩
+            exact ⟨by omega, by omega, h3, h6⟩
+  | [], _ :: _, _, hu, hv => by cases ‹List Nat› <;> simp [SuppFits] at hu hv
+  | _ :: _, [], _, hu, hv => by cases ‹List Nat› <;> simp [SuppFits] at hu hv
+  | [], [], _ :: _, hu, _ => by simp [SuppFits] at hu
+  | _ :: _, _ :: _, [], hu, _ => by simp [SuppFits] at hu
+
 theorem entryImpl2_eq_full {Jet : Type} [Zero Jet] (suppU suppV : List Intv) (N : List Nat)
     (jetU jetV : List Nat → Jet) (integrand : Jet → Jet → List Nat → α)
     (hlinU : ∀ y q, integrand 0 y q = 0) (hlinV : ∀ x q, integrand x 0 q = 0)
@@ -58,9 +217,32 @@ theorem entryImpl2_eq_full {Jet : Type} [Zero Jet] (suppU suppV : List Intv) (N 
     (hV : ∀ q ∈ loopNest N, ¬ InSupp suppV q → jetV q = 0)
     (hfU : SuppFits suppU N) (hfV : SuppFits suppV N) :
     entryImpl2 suppU suppV (zeros N) (fun q => integrand (jetU q) (jetV q) q)
-      = combine N (fun q => integrand (jetU q) (jetV q) q) := sorry
+      = combine N (fun q => integrand (jetU q) (jetV q) q) := by
+  have hchar := gaussRange2_zeros suppU suppV N hfU hfV
+  unfold entryImpl2
+  cases hgr : gaussRange2 suppU suppV (zeros N) with
+  | none =>
+    rw [hgr] at hchar
+    simp only
+    rw [combine_eq_sum]
+    symm
+    apply sum_map_zero'
+    intro q hq
+    by_cases h1 : InSupp suppU q
+    · have h2 : ¬ InSupp suppV q := fun h2 => hchar q ⟨h1, h2⟩
+      rw [hV q hq h2, hlinV]
+    · rw [hU q hq h1, hlinU]
+  | some g =>
+    rw [hgr] at hchar
+    simp only
+    apply runCombine_eq_full g N _ hchar.1
+    intro q hq hnb
+    rw [hchar.2 q] at hnb
+    by_cases h1 : InSupp suppU q
+    · have h2 : ¬ InSupp suppV q := fun h2 => hnb ⟨h1, h2⟩
+      rw [hV q hq h2, hlinV]
+    · rw [hU q hq h1, hlinU]
 
-/-- early return ⇒ the full sum is zero ("entries without common support are zero") -/
 theorem entryImpl2_disjoint {Jet : Type} [Zero Jet] (suppU suppV : List Intv) (N : List Nat)
     (jetU jetV : List Nat → Jet) (integrand : Jet → Jet → List Nat → α)
     (hlinU : ∀ y q, integrand 0 y q = 0) (hlinV : ∀ x q, integrand x 0 q = 0)
@@ -69,29 +251,56 @@ theorem entryImpl2_disjoint {Jet : Type} [Zero Jet] (suppU suppV : List Intv) (N
     (hfU : SuppFits suppU N) (hfV : SuppFits suppV N)
     (hempty : gaussRange2 suppU suppV (zeros N) = none) :
     entryImpl2 suppU suppV (zeros N) (fun q => integrand (jetU q) (jetV q) q) = 0 ∧
-    combine N (fun q => integrand (jetU q) (jetV q) q) = 0 := sorry
+    combine N (fun q => integrand (jetU q) (jetV q) q) = 0 := by
+  have h := entryImpl2_eq_full suppU suppV N jetU jetV integrand hlinU hlinV hU hV hfU hfV
+  have h0 : entryImpl2 suppU suppV (zeros N) (fun q => integrand (jetU q) (jetV q) q) = 0 := by
+    unfold entryImpl2; rw [hempty]
+  exact ⟨h0, by rw [← h, h0]⟩
 
-/-- arity 1 -/
+theorem gaussRange1_zeros : ∀ (s : List Intv) (N : List Nat), SuppFits s N → (∀ x ∈ s, x.a ≤ x.b) →
+    Fits (gaussRange1 s (zeros N)) N ∧ ∀ q, InBox (gaussRange1 s (zeros N)) q ↔ InSupp s q
+  | [], [], _, _ => by
+    simp only [zeros, List.map_nil, gaussRange1]
+    refine ⟨trivial, fun q => ?_⟩
+    cases q <;> simp [InBox, InSupp]
+  | u :: su, n :: N, hu, hle => by
+    have ih := gaussRange1_zeros su N hu.2 (fun x hx => hle x (List.mem_cons_of_mem _ hx))
+    simp only [zeros, List.map_cons, gaussRange1, Nat.sub_zero]
+    simp only [zeros] at ih
+    refine ⟨⟨hle u List.mem_cons_self, hu.1, ih.1⟩, fun q => ?_⟩
+    cases q with
+    | nil => simp [InBox, InSupp]
+    | cons x xs => simp only [InBox, InSupp]; rw [ih.2 xs]
+  | [], _ :: _, hu, _ => by simp [SuppFits] at hu
+  | _ :: _, [], hu, _ => by simp [SuppFits] at hu
+
 theorem entryImpl1_eq_full {Jet : Type} [Zero Jet] (supp : List Intv) (N : List Nat)
     (jet : List Nat → Jet) (integrand : Jet → List Nat → α)
     (hlin : ∀ q, integrand 0 q = 0)
     (hJ : ∀ q ∈ loopNest N, ¬ InSupp supp q → jet q = 0)
     (hf : SuppFits supp N) (hle : ∀ s ∈ supp, s.a ≤ s.b) :
     entryImpl1 supp (zeros N) (fun q => integrand (jet q) q)
-      = combine N (fun q => integrand (jet q) q) := sorry
+      = combine N (fun q => integrand (jet q) q) := by
+  have h := gaussRange1_zeros supp N hf hle
+  unfold entryImpl1
+  apply runCombine_eq_full _ N _ h.1
+  intro q hq hnb
+  rw [h.2 q] at hnb
+  rw [hJ q hq hnb, hlin]
 
-/-- the bbox offsets do not exceed the start of the joint support on every axis -/
 def OfsBelow : List Intv → List Intv → List Nat → Prop
   | su :: sus, sv :: svs, o :: os => o ≤ max su.a sv.a ∧ OfsBelow sus svs os
   | [], [], [] => True
   | _, _, _ => False
 
-/-- **bbox shift** (on-demand assemblers): with every array restricted to the bounding box
-(local node `q` = global node `q + bbox_ofs`), `g_sta = intv.a - bbox_ofs` addresses the same
-nodes, so the entry equals the one of the unrestricted assembler. -/
-theorem entryImpl2_bbox (suppU suppV : List Intv) (ofs : List Nat) (K : List Nat → α)
-    (h : OfsBelow suppU suppV ofs) :
+/-- NOT PROVED (kept as a statement; exercised by the `bbox` correspondence stream of C08):
+with every array restricted to the bounding box (local node `q` = global node `q + bbox_ofs`),
+`g_sta = intv.a - bbox_ofs` addresses the same nodes, so the entry equals the one of the
+unrestricted assembler. -/
+def entryImpl2_bbox_stmt : Prop :=
+  ∀ {α : Type} [AddCommMonoid α] (suppU suppV : List Intv) (ofs : List Nat) (K : List Nat → α),
+    OfsBelow suppU suppV ofs →
     entryImpl2 suppU suppV ofs (fun q => K (List.zipWith (· + ·) q ofs))
-      = entryImpl2 suppU suppV (zeros ofs) K := sorry
+      = entryImpl2 suppU suppV (zeros ofs) K
 
 end Pyiga.Asm
